@@ -13,7 +13,7 @@ from . import signals
 from .c01 import STOPS, INTERPS, opts_of
 
 PID = 'C02'
-TIMEOUT = 120.0
+TIMEOUT = 1800.0
 RULE = ('every (signal, option set) pair of the grid; per pair 17 transformed runs of get_next_imf and of sift '
         '(13 exact, 4 approximate scalings, 1 reversal) compared with the transformed base run; mask cases: 6 positive '
         'factors x 8 mask configurations; non-trivial = base decomposition has >= 2 columns')
